@@ -46,13 +46,53 @@ def lostOf {Purl : Type} (ops : PurlOps Purl) (exported : Pkg Purl → Bool) (in
 (lower-casing; `_` and `.` folded to `-` for pypi) -/
 def canonName (s : String) : String := s.map fun c => if c = '_' || c = '.' then '-' else c.toLower
 
-/-- What `norm` (= `purl.FromString ∘ String`) is ALLOWED to do — without this a "parser" that returns one fixed purl for
-every input would satisfy `ParsesBack` (audit finding). It is idempotent (so it is the identity on purls that are already
-normal), it never touches the version, and it changes the name at most by the case / separator folding of `canonName`.
-The real library is checked against these laws on every generated purl by c15gen (reply field `laws=`). -/
-structure NormLaws {Purl : Type} (ops : PurlOps Purl) (norm : Purl → Purl) : Prop where
+/-- the components of a purl besides name and version (accessors of the purl library's struct) -/
+structure PurlFields (Purl : Type) where
+  typ : Purl → String
+  ns : Purl → String
+  /-- qualifiers, as (key, value) pairs -/
+  quals : Purl → List (String × String)
+  subpath : Purl → String
+
+/-- path-like components are compared segment-wise; empty, "." and ".." segments carry no meaning in a purl -/
+def cleanSegs (s : String) : List String := (s.splitOn "/").filter fun x => x ≠ "" && x ≠ "." && x ≠ ".."
+
+/-- lower-cased characters of a string (kernel-reducible on literals, unlike `String.toLower`) -/
+def lowerL (s : String) : List Char := s.toList.map Char.toLower
+
+/-- qualifiers as the purl specification reads them: keys are case-insensitive, an empty value is no qualifier -/
+def canonQuals (q : List (String × String)) : List (List Char × String) :=
+  (q.filter fun kv => kv.2 ≠ "").map fun kv => (lowerL kv.1, kv.2)
+
+/-- What `norm` (= print, then parse, with the purl library) is ALLOWED to do: "the same package URLs up to the normalisation of
+their type" — and nothing else. Without this a "parser" that returns one fixed purl, or one that rewrites every TYPE to "evil",
+would satisfy `ParsesBack` (audit findings). `norm` is idempotent, never touches the version, changes the name at most by the case /
+separator folding of `canonName`, lower-cases the type and changes nothing else of it, keeps the namespace up to case and
+empty segments, keeps every qualifier VALUE (keys are case-insensitive, empty values are no qualifiers) and keeps the sub-path up
+to empty / "." / ".." segments. The real library (packageurl-go alone) is checked against these laws on every generated purl:
+by c15gen (`checkNormLaws`) and, from the components in the case line, by the Lean driver (reply field `laws=`). -/
+structure NormLaws {Purl : Type} (ops : PurlOps Purl) (fld : PurlFields Purl) (norm : Purl → Purl) : Prop where
   idem : ∀ u, norm (norm u) = norm u
   version : ∀ u, ops.version (norm u) = ops.version u
   name : ∀ u, canonName (ops.name (norm u)) = canonName (ops.name u)
+  typ : ∀ u, (fld.typ (norm u)).toList = lowerL (fld.typ u)
+  ns : ∀ u, (cleanSegs (fld.ns (norm u))).map lowerL = (cleanSegs (fld.ns u)).map lowerL
+  quals : ∀ u x, x ∈ canonQuals (fld.quals (norm u)) ↔ x ∈ canonQuals (fld.quals u)
+  subpath : ∀ u, cleanSegs (fld.subpath (norm u)) = cleanSegs (fld.subpath u)
+
+/-- the per-purl part of `NormLaws` that can be decided from one row (u, norm u) of the library's table (driver: `laws=`) -/
+def lawsHold {Purl : Type} (ops : PurlOps Purl) (fld : PurlFields Purl) (u n : Purl) : Bool :=
+  ops.version n = ops.version u && canonName (ops.name n) = canonName (ops.name u) && (fld.typ n).toList = lowerL (fld.typ u) &&
+  (cleanSegs (fld.ns n)).map lowerL = (cleanSegs (fld.ns u)).map lowerL &&
+  (canonQuals (fld.quals n)).all (fun x => (canonQuals (fld.quals u)).contains x) &&
+  (canonQuals (fld.quals u)).all (fun x => (canonQuals (fld.quals n)).contains x) &&
+  cleanSegs (fld.subpath n) = cleanSegs (fld.subpath u)
+
+/-- the part of `lawsHold` that involves no case folding: version, qualifier values (keys are ASCII by the purl grammar), sub-path -/
+def lawsExact {Purl : Type} (ops : PurlOps Purl) (fld : PurlFields Purl) (u n : Purl) : Bool :=
+  ops.version n = ops.version u &&
+  (canonQuals (fld.quals n)).all (fun x => (canonQuals (fld.quals u)).contains x) &&
+  (canonQuals (fld.quals u)).all (fun x => (canonQuals (fld.quals n)).contains x) &&
+  cleanSegs (fld.subpath n) = cleanSegs (fld.subpath u)
 
 end Scalibr.Sbom
